@@ -8,6 +8,7 @@ import (
 	"testing"
 	"time"
 
+	"github.com/pion/ice/v4"
 	kit "github.com/pion/webrtc/v4/internal/verifkit"
 )
 
@@ -15,37 +16,151 @@ import (
 // exactly once, and nothing after it — with or without a candidate pool, however SetLocalDescription's pool flush
 // interleaves with the gathering callbacks.
 //
-// Monitor: trace checker over the recorded handler invocations (candidate string or nil, in invocation order), compared
-// at quiescence with the gatherer's own GetLocalCandidates(); scripted schedules park the end-of-gathering callback, a
-// candidate callback or the flush at the compiled-in yield points of icegatherer.go.
+// Monitor: trace checker over the recorded handler invocations (candidate identity or nil, in invocation order), compared
+// at quiescence with the local candidates of the pion/ice agent itself; scripted schedules park the end-of-gathering
+// callback, a candidate callback or the flush at the compiled-in yield points of icegatherer.go.
+//
+// Independence of the deciding oracle: the path under judgement turns every ice.Candidate into an ICECandidate with
+// newICECandidateFromICE (and drops the candidate when that fails). The reference set therefore must NOT pass through
+// that conversion (ICEGatherer.GetLocalCandidates does) and the handler events must not be keyed by a string that
+// round-trips through the webrtc-level conversions (ICECandidate.ToJSON -> ToICE -> Marshal). Both sides are keyed by
+// the candidate's transport identity "type proto address port [tcptype] [raddr rport]", rendered here: on the reference
+// side from the ice.Candidate getters of the agent's own candidates, on the handler side from the plain struct fields of
+// the reported ICECandidate with private renderers for the two enums.
+
+// c24TypName renders an ICECandidateType without webrtc's String()/convertTypeFromICE.
+func c24TypName(t ICECandidateType) string {
+	switch t {
+	case ICECandidateTypeHost:
+		return "host"
+	case ICECandidateTypeSrflx:
+		return "srflx"
+	case ICECandidateTypePrflx:
+		return "prflx"
+	case ICECandidateTypeRelay:
+		return "relay"
+	default:
+		return fmt.Sprintf("typ(%d)", int(t))
+	}
+}
+
+// c24IceTypName renders an ice.CandidateType from the ice package's constants.
+func c24IceTypName(t ice.CandidateType) string {
+	switch t {
+	case ice.CandidateTypeHost:
+		return "host"
+	case ice.CandidateTypeServerReflexive:
+		return "srflx"
+	case ice.CandidateTypePeerReflexive:
+		return "prflx"
+	case ice.CandidateTypeRelay:
+		return "relay"
+	default:
+		return fmt.Sprintf("icetyp(%d)", int(t))
+	}
+}
+
+func c24ProtoName(p ICEProtocol) string {
+	switch p {
+	case ICEProtocolUDP:
+		return "udp"
+	case ICEProtocolTCP:
+		return "tcp"
+	default:
+		return fmt.Sprintf("proto(%d)", int(p))
+	}
+}
+
+func c24IceProtoName(n ice.NetworkType) string {
+	switch {
+	case n.IsUDP():
+		return "udp"
+	case n.IsTCP():
+		return "tcp"
+	default:
+		return fmt.Sprintf("iceproto(%d)", int(n))
+	}
+}
+
+func c24Key(typ, proto, addr string, port int, tcpType, raddr string, rport int) string {
+	k := fmt.Sprintf("%s %s %s %d", typ, proto, strings.ToLower(addr), port)
+	if tcpType != "" {
+		k += " tcptype " + tcpType
+	}
+	if raddr != "" {
+		k += fmt.Sprintf(" raddr %s rport %d", strings.ToLower(raddr), rport)
+	}
+
+	return k
+}
+
+// c24KeyOfReported: identity of a candidate as the handler received it (struct fields only).
+func c24KeyOfReported(c *ICECandidate) string {
+	return c24Key(c24TypName(c.Typ), c24ProtoName(c.Protocol), c.Address, int(c.Port), c.TCPType, c.RelatedAddress, int(c.RelatedPort))
+}
+
+// c24KeyOfGathered: identity of a candidate as the pion/ice agent holds it.
+func c24KeyOfGathered(c ice.Candidate) string {
+	tcpType := ""
+	if c.TCPType() != ice.TCPTypeUnspecified {
+		tcpType = c.TCPType().String()
+	}
+	raddr, rport := "", 0
+	if ra := c.RelatedAddress(); ra != nil {
+		raddr, rport = ra.Address, ra.Port
+	}
+
+	return c24Key(c24IceTypName(c.Type()), c24IceProtoName(c.NetworkType()), c.Address(), c.Port(), tcpType, raddr, rport)
+}
+
+type c24Ev struct {
+	isNil bool
+	key   string // independent identity (deciding)
+	line  string // the candidate line as webrtc renders it (replay detail only, never compared)
+}
 
 type c24Rec struct {
 	mu          sync.Mutex
-	evs         []string // candidate line, or "" for nil
-	lateHandler bool     // the handler was registered after gathering had already ended
+	evs         []c24Ev
+	lateHandler bool // the handler was registered after gathering had already ended
 }
 
 func (r *c24Rec) handler(c *ICECandidate) {
-	s := ""
+	ev := c24Ev{isNil: c == nil}
 	if c != nil {
-		s = c.ToJSON().Candidate
+		ev.key = c24KeyOfReported(c)
+		ev.line = c.ToJSON().Candidate
 	}
 	r.mu.Lock()
-	r.evs = append(r.evs, s)
+	r.evs = append(r.evs, ev)
 	r.mu.Unlock()
 }
 
-func (r *c24Rec) snapshot() []string {
+func (r *c24Rec) snapshot() []c24Ev {
 	r.mu.Lock()
 	defer r.mu.Unlock()
 
-	return append([]string{}, r.evs...)
+	return append([]c24Ev{}, r.evs...)
+}
+
+// c24Lines renders the event log for the replay detail: "" for nil (as before), else "<identity> <= <webrtc line>".
+func c24Lines(evs []c24Ev) []string {
+	out := make([]string, 0, len(evs))
+	for _, e := range evs {
+		if e.isNil {
+			out = append(out, "")
+		} else {
+			out = append(out, e.key+" <= "+e.line)
+		}
+	}
+
+	return out
 }
 
 func (r *c24Rec) nils() int {
 	n := 0
 	for _, e := range r.snapshot() {
-		if e == "" {
+		if e.isNil {
 			n++
 		}
 	}
@@ -111,7 +226,7 @@ func TestVerifC24(t *testing.T) { //nolint:cyclop,gocognit,maintidx
 				if rec.nils() == 0 {
 					evs := rec.snapshot()
 					run.Violation("no-end-of-gathering:"+label, fmt.Sprintf("%s pool=%d: gathering is complete but the nil marker was never reported (%d candidates reported)",
-						label, pool, len(evs)), idx, map[string]any{"schedule": label, "pool": pool, "events": evs})
+						label, pool, len(evs)), idx, map[string]any{"schedule": label, "pool": pool, "events": c24Lines(evs)})
 					run.Case(fmt.Sprintf("%s|pool%d|no-nil", label, pool), true)
 
 					return
@@ -124,20 +239,27 @@ func TestVerifC24(t *testing.T) { //nolint:cyclop,gocognit,maintidx
 		}
 		time.Sleep(15 * time.Millisecond) // settle: surplus events can only add to the log
 		evs := rec.snapshot()
-		local, err := pc.iceGatherer.GetLocalCandidates()
+		// reference: what the pion/ice agent itself gathered (no webrtc-level conversion on this side)
+		agent := pc.iceGatherer.getAgent()
+		if agent == nil {
+			run.Inconclusive("agent-gone:" + label)
+
+			return
+		}
+		local, err := agent.GetLocalCandidates()
 		if err != nil {
-			run.Inconclusive("GetLocalCandidates:" + firstN(err.Error(), 40))
+			run.Inconclusive("agent.GetLocalCandidates:" + firstN(err.Error(), 40))
 
 			return
 		}
 		want := map[string]int{}
 		for _, c := range local {
-			want[c.ToJSON().Candidate]++
+			want[c24KeyOfGathered(c)]++
 		}
 		got := map[string]int{}
 		nils, afterNil, firstNil := 0, 0, -1
 		for i, e := range evs {
-			if e == "" {
+			if e.isNil {
 				nils++
 				if firstNil < 0 {
 					firstNil = i
@@ -145,14 +267,14 @@ func TestVerifC24(t *testing.T) { //nolint:cyclop,gocognit,maintidx
 
 				continue
 			}
-			got[e]++
+			got[e.key]++
 			if firstNil >= 0 {
 				afterNil++
 			}
 		}
 		shape := make([]string, 0, len(evs))
 		for _, e := range evs {
-			if e == "" {
+			if e.isNil {
 				shape = append(shape, "nil")
 			} else {
 				shape = append(shape, "cand")
@@ -162,7 +284,7 @@ func TestVerifC24(t *testing.T) { //nolint:cyclop,gocognit,maintidx
 		run.Case(desc, len(got) >= 1 && nils >= 1 && (pool > 0 || scripted))
 		run.Count("handler_events", len(evs))
 		run.Seen("event_shapes", fmt.Sprintf("pool%d:%dcand+%dnil", pool, len(evs)-nils, nils))
-		detail := map[string]any{"schedule": label, "pool": pool, "events": evs, "gatherer_candidates": keysOf(want)}
+		detail := map[string]any{"schedule": label, "pool": pool, "events": c24Lines(evs), "gatherer_candidates": keysOf(want)}
 		if nils > 1 {
 			run.Violation("end-of-gathering-twice:"+label, fmt.Sprintf("%s: nil marker reported %d times: %s", desc, nils, strings.Join(shape, " ")), idx, detail)
 		}
@@ -170,14 +292,14 @@ func TestVerifC24(t *testing.T) { //nolint:cyclop,gocognit,maintidx
 			run.Violation("candidate-after-end-of-gathering:"+label, fmt.Sprintf("%s: %d candidate(s) reported after the nil marker: %s", desc, afterNil, strings.Join(shape, " ")), idx, detail)
 		}
 		for c, n := range got {
-			if n > 1 {
+			if n > 1 && n > want[c] { // (two gathered candidates with one identity cannot be told apart: not judged)
 				run.Violation("candidate-twice:"+label, fmt.Sprintf("%s: candidate %q reported %d times", desc, c, n), idx, detail)
 
 				break
 			}
 		}
-		for c := range want {
-			if got[c] == 0 {
+		for c, n := range want {
+			if got[c] == 0 || got[c] < n {
 				run.Violation("candidate-never-reported:"+label, fmt.Sprintf("%s: gathered candidate %q was never reported", desc, c), idx, detail)
 
 				break
@@ -185,7 +307,7 @@ func TestVerifC24(t *testing.T) { //nolint:cyclop,gocognit,maintidx
 		}
 		for c := range got {
 			if want[c] == 0 {
-				run.Count("model_divergence_reported_candidate_not_in_GetLocalCandidates", 1)
+				run.Count("model_divergence_reported_candidate_not_among_agent_candidates", 1)
 
 				break
 			}
